@@ -80,7 +80,7 @@ def run(module, cfg=None, workers=None, env=None, timeout=3600, simulate=None,
     cfg = cfg or module
     if workers is None:
         workers = os.cpu_count() or 4
-    cmd = ["java", "-XX:+UseParallelGC", "-Xmx" + heap, "-cp", JAR, "tlc2.TLC",
+    cmd = ["java", "-XX:+UseParallelGC", "-Xss64m", "-Xmx" + heap, "-cp", JAR, "tlc2.TLC",
            "-workers", str(workers), "-metadir", meta, "-noGenerateSpecTE",
            "-config", cfg + ".cfg"]
     if simulate:
@@ -167,29 +167,37 @@ def judge(module, records, cfg=None, workers=None, chunk=None, timeout=3600,
     ids = [r["id"] for r in records]
     if len(set(ids)) != len(ids):
         raise MachineryError("duplicate record ids handed to %s" % module)
-    fd, path = tempfile.mkstemp(prefix=label + "-", suffix=".ndjson", dir=BUILD)
-    with os.fdopen(fd, "w") as f:
-        for rec in records:
-            f.write(json.dumps(rec, ensure_ascii=True, separators=(",", ":")))
-            f.write("\n")
-    e = {"TRACE_FILE": path}
-    if env:
-        e.update(env)
-    try:
-        res = run(module, cfg=cfg, workers=workers, env=e, timeout=timeout)
-    finally:
-        os.unlink(path)
-    if res.distinct != len(records) + 1:
-        raise MachineryError(
-            "%s consumed %d of %d records:\n%s"
-            % (module, res.distinct - 1, len(records), _tail(res.stdout)))
-    rejects = res.rejects()
-    known = set(ids)
-    for rid, _ in rejects:
-        if rid not in known:
-            raise MachineryError("%s rejected unknown id %r" % (module, rid))
-    return rejects, {"generated": res.generated, "distinct": res.distinct,
-                     "wall": res.wall, "records": len(records), "cmd": res.cmd}
+    chunk = chunk or 20000
+    rejects = []
+    tot = {"generated": 0, "distinct": 0, "wall": 0.0, "records": len(records), "cmd": ""}
+    for start in range(0, len(records), chunk):
+        part = records[start:start + chunk]
+        fd, path = tempfile.mkstemp(prefix=label + "-", suffix=".ndjson", dir=BUILD)
+        with os.fdopen(fd, "w") as f:
+            for rec in part:
+                f.write(json.dumps(rec, ensure_ascii=True, separators=(",", ":")))
+                f.write("\n")
+        e = {"TRACE_FILE": path}
+        if env:
+            e.update(env)
+        try:
+            res = run(module, cfg=cfg, workers=workers, env=e, timeout=timeout)
+        finally:
+            os.unlink(path)
+        if res.distinct != len(part) + 1:
+            raise MachineryError(
+                "%s consumed %d of %d records:\n%s"
+                % (module, res.distinct - 1, len(part), _tail(res.stdout)))
+        known = {r["id"] for r in part}
+        for rid, clause in res.rejects():
+            if rid not in known:
+                raise MachineryError("%s rejected unknown id %r" % (module, rid))
+            rejects.append((rid, clause))
+        tot["generated"] += res.generated
+        tot["distinct"] += res.distinct
+        tot["wall"] += res.wall
+        tot["cmd"] = res.cmd
+    return rejects, tot
 
 
 def sany(module):
